@@ -142,3 +142,14 @@ Proof.
     destruct F1 as [<-|[<-|[<-|[<-|[]]]]]; simpl in F2; lia.
   - split; [simpl; repeat split; reflexivity|]. vm_compute. repeat split; reflexivity.
 Qed.
+
+(* Tie 2b (translator, every run): the decision tree of appendEntries regenerated from raft.go (Model/GenTreesAE.v,
+   loops expanded "body once or not at all"). Over EVERY path of the source: entries are deleted only on a path that took
+   the branch `entry.Term != storeEntry.Term`; on a path where that DeleteRange or StoreLogs failed nothing is stored
+   afterwards and success is never assigned; once resp.Success = true is assigned no store operation follows; and the
+   tree does contain these effects and conditions (Proofs/GenTreesAESpec.v). Order and presence of effects, not data. *)
+From RaftModel Require Import GenTrees Trees GenTreesAE.
+From RaftProofs Require Import GenTreesAESpec.
+Theorem C04_regenerated_appendEntries_deletes_only_at_a_conflict_and_never_succeeds_over_a_failed_store : append_entries_effects_in_order.
+Proof. exact append_entries_effects_in_order_holds. Qed.
+Print Assumptions C04_regenerated_appendEntries_deletes_only_at_a_conflict_and_never_succeeds_over_a_failed_store.
